@@ -71,6 +71,8 @@ def circuit_spec(
     single_output=False,
     min_fanin_nary=1,
     shuffle=True,
+    bb_type_names=None,
+    distinct_bb=False,
 ):
     """Draw a lint-clean circuit spec (see cgv.specs)."""
     if SIZE_BOOST > 1.0:
@@ -101,7 +103,10 @@ def circuit_spec(
                         unique=True,
                     )
                 )
-                bbtypes.append([f"bbt{ti}", ins, outs])
+                tname = f"bbt{ti}"
+                if bb_type_names:
+                    tname = draw(st.sampled_from([n for n in bb_type_names if n not in [b[0] for b in bbtypes]]))
+                bbtypes.append([tname, ins, outs])
             for ii in range(n_inst):
                 ti = draw(st.integers(0, n_types - 1))
                 out_conn = []
